@@ -324,7 +324,7 @@ Qed.
 
 Lemma rpg_dsb ro F g s ty pl rest :
   r_big s = false -> 0 <= ty < 4294967296 -> zlen pl < 4294967000 ->
-  exists s', r_big s' = false /\ r_ifaces s' = r_ifaces s
+  exists s', r_big s' = false /\ r_ifaces s' = r_ifaces s /\ r_link s' = r_link s
     /\ exec (readPacketG ro F (S g)) s (enc_dsb ty pl ++ rest) = exec (readPacketG ro F g) s' rest.
 Proof.
   intros Hbig Ht Hp. destruct (enc_dsb_shape ty pl Ht Hp) as (E & HL & Hz). cbv zeta in *.
@@ -351,7 +351,7 @@ Qed.
 
 Lemma exec_put_stats id st s l :
   exists s2, exec (put_stats id st) s l = ((s2, Ok tt), l) /\ r_big s2 = r_big s /\ r_blen s2 = r_blen s
-    /\ map clear_stats (r_ifaces s2) = map clear_stats (r_ifaces s).
+    /\ map clear_stats (r_ifaces s2) = map clear_stats (r_ifaces s) /\ r_link s2 = r_link s.
 Proof.
   unfold put_stats. rewrite exec_smod. eexists; split; [reflexivity|].
   destruct (nth_error (r_ifaces s) (Z.to_nat id)) eqn:E; sim; repeat split; auto. apply map_clear_upd; exact E.
@@ -370,14 +370,14 @@ Lemma exec_isb_opts : forall opts fuel id i st s rest,
   (length opts < fuel)%nat -> r_big s = false -> if_mask i <> 0 -> if_down i <> 0 -> Forall isopt_ok opts ->
   r_blen s = opts_bytes opts + 8 -> r_blen s < 4294967296 ->
   exists s', exec (isb_opts fuel id i st) s (concat (map opt_enc opts) ++ [0;0;0;0] ++ rest) = ((s', Ok tt), rest)
-    /\ r_blen s' = 4 /\ r_big s' = false /\ map clear_stats (r_ifaces s') = map clear_stats (r_ifaces s).
+    /\ r_blen s' = 4 /\ r_big s' = false /\ map clear_stats (r_ifaces s') = map clear_stats (r_ifaces s) /\ r_link s' = r_link s.
 Proof.
   induction opts as [|[c v] t IH]; intros fuel id i st s rest Hf Hbig Hm Hd Hok Hb1 Hb2.
   - destruct fuel as [|f]; [cbn in Hf; lia|]. cbn [isb_opts map concat app fold_left opts_bytes fold_right] in *.
     destruct (exec_readOption_eoo s rest Hbig ltac:(lia) Hb2) as (s1 & E1 & C1 & B1 & K1).
     rewrite exec_bind. cbn [app] in E1. rewrite E1. cbv iota beta.
     rewrite exec_bind, exec_sget. cbv iota beta. rewrite C1. cbn [Z.eqb]. rewrite exec_sret.
-    destruct (core_fields _ _ K1) as (D1 & _ & D3 & _).
+    destruct (core_fields _ _ K1) as (D1 & _ & D3 & D4 & _).
     exists s1. repeat split; auto; try congruence; lia.
   - destruct fuel as [|f]; [cbn in Hf; lia|]. inversion Hok as [|? ? Hcv Ht]; subst.
     destruct Hcv as (Hc & Hv & H8). cbn [fst snd] in *.
@@ -388,19 +388,19 @@ Proof.
       as (s1 & E1 & C1 & V1 & B1 & K1).
     cbn [isb_opts]. rewrite exec_bind, E1. cbv iota beta. rewrite exec_bind, exec_sget. cbv iota beta.
     rewrite C1, V1.
-    destruct (core_fields _ _ K1) as (D1 & _ & D3 & _).
+    destruct (core_fields _ _ K1) as (D1 & _ & D3 & D4 & _).
     assert (r_big s1 = false) as Hbig1 by congruence.
     (* whatever the statistics and however they were stored, the loop goes on *)
     assert (forall st' s2, r_big s2 = false -> r_blen s2 = r_blen s1 ->
-              map clear_stats (r_ifaces s2) = map clear_stats (r_ifaces s) ->
+              map clear_stats (r_ifaces s2) = map clear_stats (r_ifaces s) -> r_link s2 = r_link s ->
               exists s', exec (isb_opts f id i st') s2 (concat (map opt_enc t) ++ [0;0;0;0] ++ rest) = ((s', Ok tt), rest)
-                /\ r_blen s' = 4 /\ r_big s' = false /\ map clear_stats (r_ifaces s') = map clear_stats (r_ifaces s)) as G.
-    { intros st' s2 G1 G2 G3. destruct (IH f id i st' s2 rest) as (s' & E & P1 & P2 & P3); auto; try lia.
+                /\ r_blen s' = 4 /\ r_big s' = false /\ map clear_stats (r_ifaces s') = map clear_stats (r_ifaces s) /\ r_link s' = r_link s) as G.
+    { intros st' s2 G1 G2 G3 G4. destruct (IH f id i st' s2 rest) as (s' & E & P1 & P2 & P3 & P4); auto; try lia.
       - cbn in Hf; lia.
-      - exists s'. repeat split; auto. congruence. }
+      - exists s'. repeat split; auto; congruence. }
     assert (forall st', exists s', exec (put_stats id st';;; isb_opts f id i st') s1 (concat (map opt_enc t) ++ [0;0;0;0] ++ rest) = ((s', Ok tt), rest)
-                /\ r_blen s' = 4 /\ r_big s' = false /\ map clear_stats (r_ifaces s') = map clear_stats (r_ifaces s)) as GP.
-    { intros st'. destruct (exec_put_stats id st' s1 (concat (map opt_enc t) ++ [0;0;0;0] ++ rest)) as (s2 & E2 & Q1 & Q2 & Q3).
+                /\ r_blen s' = 4 /\ r_big s' = false /\ map clear_stats (r_ifaces s') = map clear_stats (r_ifaces s) /\ r_link s' = r_link s) as GP.
+    { intros st'. destruct (exec_put_stats id st' s1 (concat (map opt_enc t) ++ [0;0;0;0] ++ rest)) as (s2 & E2 & Q1 & Q2 & Q3 & Q4).
       rewrite exec_bind, E2. cbv iota beta. apply G; congruence. }
     assert (c =? 0 = false) as -> by lia.
     destruct (c =? 1) eqn:X1; [apply GP|].
@@ -457,13 +457,13 @@ Lemma exec_opts_written_isb F l id i st s rest :
   (length l < F)%nat -> r_big s = false -> if_mask i <> 0 -> if_down i <> 0 -> Forall isopt_ok l ->
   r_blen s = zlen (opts_enc l) + 4 -> r_blen s < 4294967296 ->
   exists s', exec (isb_opts F id i st) s (opts_enc l ++ rest) = ((s', Ok tt), rest)
-    /\ r_blen s' = 4 /\ r_big s' = false /\ map clear_stats (r_ifaces s') = map clear_stats (r_ifaces s).
+    /\ r_blen s' = 4 /\ r_big s' = false /\ map clear_stats (r_ifaces s') = map clear_stats (r_ifaces s) /\ r_link s' = r_link s.
 Proof.
   intros HF Hbig Hm Hd Hok Hb1 Hb2. rewrite zlen_opts_enc in Hb1. destruct l as [|x t] eqn:E.
   - destruct F as [|f]; [cbn in HF; lia|]. cbn [opts_enc app isb_opts].
     destruct (exec_readOption_fake s rest ltac:(lia)) as (s1 & E1 & C1 & B1 & K1).
     rewrite exec_bind, E1. cbv iota beta. rewrite exec_bind, exec_sget. cbv iota beta. rewrite C1. cbn [Z.eqb].
-    rewrite exec_sret. destruct (core_fields _ _ K1) as (D1 & _ & D3 & _). exists s1. repeat split; auto; congruence.
+    rewrite exec_sret. destruct (core_fields _ _ K1) as (D1 & _ & D3 & D4 & _). exists s1. repeat split; auto; congruence.
   - unfold opts_enc. rewrite <- app_assoc. rewrite <- E in *.
     apply exec_isb_opts; auto. rewrite E in *. lia.
 Qed.
@@ -475,7 +475,7 @@ Lemma exec_readISB F s ifid st i rest :
   let ts := match ws_last st with Some t => t | None => 0 end in
   exists s', exec (readISB F) s ((le_bytes 4 ifid ++ enc_ts ts) ++ opts_enc (isb_options st)
                                  ++ le_bytes 4 (zlen (opts_enc (isb_options st)) + 24) ++ rest) = ((s', Ok tt), rest)
-    /\ r_big s' = false /\ map clear_stats (r_ifaces s') = map clear_stats (r_ifaces s).
+    /\ r_big s' = false /\ map clear_stats (r_ifaces s') = map clear_stats (r_ifaces s) /\ r_link s' = r_link s.
 Proof.
   intros Hbig Hi Ei Hm Hd HF Hb. cbv zeta.
   destruct (isb_options_ok st) as (Hok & Hob & Hlen).
@@ -494,29 +494,29 @@ Proof.
   destruct (convert_time_total i (getu false (sl b12 4 8) * 4294967296 + getu false (sl b12 8 12)) Hm Hd) as (tm & ->).
   rewrite exec_bind. cbn [slift]. rewrite exec_sret. cbv iota beta.
   match goal with |- context [exec (put_stats ifid ?x;;; ?k) ?st ?l] =>
-    destruct (exec_put_stats ifid x st l) as (s2 & E2 & Q1 & Q2 & Q3) end.
+    destruct (exec_put_stats ifid x st l) as (s2 & E2 & Q1 & Q2 & Q3 & Q4) end.
   rewrite exec_bind, E2. cbv iota beta. sim.
   rewrite exec_bind.
   destruct (exec_opts_written_isb F (isb_options st) ifid i
               (mkStats tm zero_time zero_time [] NoValue64 NoValue64) s2
-              (le_bytes 4 (zlen (opts_enc (isb_options st)) + 24) ++ rest)) as (s3 & E3 & P1 & P2 & P3);
+              (le_bytes 4 (zlen (opts_enc (isb_options st)) + 24) ++ rest)) as (s3 & E3 & P1 & P2 & P3 & P4);
     try assumption; try lia; try congruence.
   { rewrite Q2. rewrite u32_small by lia. lia. }
   { rewrite Q2. rewrite u32_small by lia. lia. }
   rewrite E3. cbv iota beta. rewrite exec_bind, exec_sget. cbv iota beta. rewrite P1.
   rewrite exec_disc_app by (rewrite zlen_le_bytes; reflexivity).
-  eexists; split; [reflexivity|]. sim. split; [exact P2|]. rewrite P3, Q3. reflexivity.
+  eexists; split; [reflexivity|]. sim. split; [exact P2|]. split; [rewrite P3, Q3; reflexivity|]. rewrite P4, Q4. reflexivity.
 Qed.
 
 Lemma rpg_isb ro F g s ifid st i rest :
   r_big s = false -> 0 <= ifid < 4294967296 -> nth_error (r_ifaces s) (Z.to_nat ifid) = Some i ->
   if_mask i <> 0 -> if_down i <> 0 -> (4 < F)%nat ->
-  exists s', r_big s' = false /\ map clear_stats (r_ifaces s') = map clear_stats (r_ifaces s)
+  exists s', r_big s' = false /\ map clear_stats (r_ifaces s') = map clear_stats (r_ifaces s) /\ r_link s' = r_link s
     /\ exec (readPacketG ro F (S g)) s (enc_isb ifid st ++ rest) = exec (readPacketG ro F g) s' rest.
 Proof.
   intros Hbig Hi Ei Hm Hd HF. destruct (enc_isb_shape ifid st Hi) as (E & HL & Hz). cbv zeta in *.
   set (L := zlen (opts_enc (isb_options st)) + 24) in *. rewrite E. repeat rewrite <- app_assoc.
-  destruct (exec_readISB F (set_block s false 5 (L - 8)) ifid st i rest) as (s' & Er & P1 & P2);
+  destruct (exec_readISB F (set_block s false 5 (L - 8)) ifid st i rest) as (s' & Er & P1 & P2 & P3);
     try assumption; try reflexivity; [sim; lia|].
   exists s'. sim. repeat split; auto.
   unfold readPacketG. rewrite !exec_bind. cbn [readPacketHeader]. cbv zeta.
@@ -650,7 +650,7 @@ Proof.
         unfold zlen in Hid. lia. }
       destruct (sinv_link ws s ifid i Hifs Ei) as (_ & Hm & Hd).
       destruct (rpg_isb ro F g s ifid st i (concat (map enc_op t) ++ tail) Hbig ltac:(lia) Ei
-                  ltac:(rewrite Hm; unfold E9; lia) ltac:(rewrite Hd; lia) ltac:(lia)) as (s1 & Q1 & Q2 & E).
+                  ltac:(rewrite Hm; unfold E9; lia) ltac:(rewrite Hd; lia) ltac:(lia)) as (s1 & Q1 & Q2 & _ & E).
       assert (sinv ws s1) as Hs1 by (split; [exact Q1|rewrite Q2; exact Hifs]).
       assert (length t < g)%nat as Hg' by lia.
       destruct (IH ws s1 g tail Hg' Hs1 Hok (conj HF12 HFt)) as (ws' & s' & Hs' & R).
@@ -661,7 +661,7 @@ Proof.
         destruct R as (t' & R1 & R2 & R3 & R4 & R5 & R6). exists t'. rewrite E. split; [exact R1|]. split; [exact R2|]. split; [exact R3|]. split; [exact R4|]. split; [cbn [length] in *; lia|exact R6].
     + (* WriteDecryptionSecretsBlock: skipped *)
       destruct Hok as (_ & Hty & Hpl & Hok). cbn [exp_pkts enc_ops map concat enc_op ws_after]. rewrite <- app_assoc.
-      destruct (rpg_dsb ro F g s ty pl (concat (map enc_op t) ++ tail) Hbig Hty Hpl) as (s1 & Q1 & Q2 & E).
+      destruct (rpg_dsb ro F g s ty pl (concat (map enc_op t) ++ tail) Hbig Hty Hpl) as (s1 & Q1 & Q2 & _ & E).
       assert (sinv ws s1) as Hs1 by (split; [exact Q1|rewrite Q2; exact Hifs]).
       assert (length t < g)%nat as Hg' by lia.
       destruct (IH ws s1 g tail Hg' Hs1 Hok (conj HF12 HFt)) as (ws' & s' & Hs' & R).
@@ -769,11 +769,12 @@ Proof.
   cbn [run_d]. rewrite u32_small by lia. replace (L - 8 - 4) with (L - 12) by lia. reflexivity.
 Qed.
 
-Lemma exec_newReader ro F sec rest : ro_mixed ro = true -> sec_ok sec -> (6 < F)%nat ->
-  exists s', exec (newReader ro F) init_rst (enc_shb sec ++ rest) = ((s', Ok tt), rest)
-    /\ r_big s' = false /\ r_ifaces s' = [] /\ r_sect s' = sec.
+Lemma exec_newReader_any ro F sec rest : sec_ok sec -> (6 < F)%nat ->
+  exists s', r_big s' = false /\ r_ifaces s' = [] /\ r_sect s' = sec /\ r_first s' = false
+    /\ exec (newReader ro F) init_rst (enc_shb sec ++ rest)
+       = if ro_mixed ro then ((s', Ok tt), rest) else exec (firstInterface ro F F) s' rest.
 Proof.
-  intros Hmix Hs HF. pose proof (enc_shb_shape sec Hs) as (Hshape & HL). cbv zeta in *.
+  intros Hs HF. pose proof (enc_shb_shape sec Hs) as (Hshape & HL). cbv zeta in *.
   destruct (shb_options_ok sec Hs) as (Hok & Hb & Hlen).
   rewrite Hshape. repeat rewrite <- app_assoc.
   set (L := zlen (opts_enc (shb_options sec)) + 28) in *.
@@ -802,9 +803,39 @@ Proof.
   rewrite E1. cbv iota beta. rewrite shb_fold.
   rewrite exec_bind, exec_sget. cbv iota beta. rewrite B1.
   rewrite exec_bind, exec_disc_app by (rewrite zlen_le_bytes; reflexivity). cbv iota beta.
-  rewrite exec_bind, exec_smod. cbv iota beta. rewrite Hmix. rewrite exec_sret.
+  rewrite exec_bind, exec_smod. cbv iota beta.
   destruct (core_fields _ _ K1) as (D1 & D2 & D3 & D4 & D5 & D6 & D7 & D8 & D9 & D10 & D11 & D12). sim.
-  eexists; split; [reflexivity|]. sim. repeat split; auto.
+  eexists. split; [|split; [|split; [|split]]]; cycle 4.
+  { destruct (ro_mixed ro); [rewrite exec_sret|]; reflexivity. }
+  all: sim; auto.
+Qed.
+
+Lemma exec_newReader ro F sec rest : ro_mixed ro = true -> sec_ok sec -> (6 < F)%nat ->
+  exists s', exec (newReader ro F) init_rst (enc_shb sec ++ rest) = ((s', Ok tt), rest)
+    /\ r_big s' = false /\ r_ifaces s' = [] /\ r_sect s' = sec.
+Proof.
+  intros Hmix Hs HF. destruct (exec_newReader_any ro F sec rest Hs HF) as (s' & P1 & P2 & P3 & P4 & E).
+  rewrite Hmix in E. eauto.
+Qed.
+
+(* only the first interface's link type wanted: NewNgReader also reads the first interface *)
+Lemma exec_newReader_unmixed ro F sec w rest : ro_mixed ro = false -> sec_ok sec -> wif_ok w -> (12 < F)%nat ->
+  exists s', exec (newReader ro F) init_rst (enc_shb sec ++ enc_idb w ++ rest) = ((s', Ok tt), rest)
+    /\ r_big s' = false /\ r_ifaces s' = [iface_of w] /\ r_link s' = wi_link w /\ r_sect s' = sec.
+Proof.
+  intros Hmix Hs Hw HF. destruct (exec_newReader_any ro F sec (enc_idb w ++ rest) Hs ltac:(lia)) as (s0 & P1 & P2 & P3 & P4 & E).
+  rewrite Hmix in E. rewrite E. clear E.
+  pose proof (enc_idb_shape w Hw) as (Hshape & Hz & HL). cbv zeta in *.
+  rewrite Hshape. repeat rewrite <- app_assoc. set (L := zlen (opts_enc (idb_options w)) + 20) in *.
+  destruct (exec_readIDB F (set_block s0 false 1 (L - 8)) w rest) as (s1 & Er & Q1 & Q2 & Q3 & Q4 & Q5 & Q6 & Q7);
+    try assumption; try reflexivity; [pose proof (idb_options_len w); lia|sim; lia|].
+  destruct F as [|f]; [lia|]. cbn [firstInterface].
+  rewrite exec_bind, exec_readBlock_plain by (try assumption; try lia; unfold BT_SHB; lia). cbv iota beta.
+  rewrite exec_bind, exec_sget. cbv iota beta. sim. cbn [Z.eqb Pos.eqb].
+  rewrite exec_bind. repeat rewrite <- app_assoc in Er. fold L in Er. rewrite Er. cbv iota beta.
+  rewrite exec_bind, exec_sget. cbv iota beta. sim. rewrite Q2, P2. cbn [app].
+  rewrite Q4, P4. cbn [negb]. rewrite exec_smod.
+  eexists; split; [reflexivity|]. sim. split; [exact Q1|]. split; [rewrite Q2, P2; reflexivity|]. split; [reflexivity|]. rewrite Q5; exact P3.
 Qed.
 
 (* ---------------------------------------------------------------- the writer accepts an ok script and writes its blocks *)
